@@ -1,8 +1,8 @@
 // C17 (assignments): SymbolicVarAsgn is the vehicle of every MTBDD construction and evaluation.  For every ternary vector
 // of NVA digits (NVA = 5 or 6 crosses the 4-variables-per-byte packing): Set/Get round trip without disturbing other
 // positions, the string constructor and ToString, AddVariablesUpTo, append, the enumeration of the concrete symbols a
-// cube covers (each covered total assignment exactly once, nothing else), operator++ as binary increment, and operator<
-// as a strict total order on assignments of equal length (irreflexive, asymmetric, total: MODE 1 with two vectors;
+// cube covers (each covered total assignment exactly once, nothing else), operator++ as binary increment (below all-ones),
+// and operator< as a strict total order on assignments of equal length (irreflexive, asymmetric, total: MODE 1 with two vectors;
 // transitive and negatively transitive: MODE 2 with three vectors).
 #include <vata/vata.hh>
 #include <vata/sym_var_asgn.hh>
@@ -77,7 +77,13 @@ extern "C" void harness(void)
   { unsigned n = 0; for (unsigned i = 0; i < NVA; ++i) n |= (t[i] & 1) << i;
     Asgn c(NVA, n); for (unsigned i = 0; i < NVA; ++i) CHECK(c.GetIthVariableValue(i) == (((n >> i) & 1) ? Asgn::ONE : Asgn::ZERO), 20);
     Asgn old = c++; unsigned m = (n + 1) & ((1u << NVA) - 1);
-    for (unsigned i = 0; i < NVA; ++i) { CHECK(c.GetIthVariableValue(i) == (((m >> i) & 1) ? Asgn::ONE : Asgn::ZERO), 21); CHECK(old.GetIthVariableValue(i) == (((n >> i) & 1) ? Asgn::ONE : Asgn::ZERO), 22); }
+    // incrementing the all-ones assignment has no documented meaning (the current sources wrap round to all zeros): with
+    // -DSTRICT_IMPL only
+    bool wraps = n == (1u << NVA) - 1;
+#ifdef STRICT_IMPL
+    wraps = false;
+#endif
+    for (unsigned i = 0; i < NVA; ++i) { CHECK(wraps || c.GetIthVariableValue(i) == (((m >> i) & 1) ? Asgn::ONE : Asgn::ZERO), 21); CHECK(old.GetIthVariableValue(i) == (((n >> i) & 1) ? Asgn::ONE : Asgn::ZERO), 22); }
 #ifdef VS_OBSERVE
     vs_observe(n); vs_observe(m);
 #endif
@@ -92,8 +98,13 @@ extern "C" void harness(void)
 #else
   CHECK((ab || ba) == !eq, 32);
 #endif
-  // a shorter assignment is smaller
-  { Asgn c(std::string("1")); CHECK(c < a && !(a < c), 33); }
+  // assignments of different lengths are different keys: ordered one way or the other (that the shorter one is the smaller
+  // one is a choice of the current sources, checked with -DSTRICT_IMPL only)
+  { Asgn c(std::string("1")); CHECK((c < a) != (a < c), 33);
+#ifdef STRICT_IMPL
+    CHECK(c < a && !(a < c), 33);
+#endif
+  }
 #if MODE == 2
   // transitive (so that std::map / std::set keyed by assignments are well defined)
   { const Asgn c = make(w); const bool bc = b < c, ac = a < c; if (ab && bc) CHECK(ac, 34); if (!ab && !bc) CHECK(!ac, 35); }
